@@ -1917,6 +1917,8 @@ func (h *fsmHandler) sendMessageloop(ctx context.Context, conn net.Conn, stateRe
 				options := &bgp.MarshallingOption{
 					AddPath:         fsm.familyMap.Load().(map[bgp.Family]bgp.BGPAddPathMode),
 					ExtendedMessage: fsm.extendedMessage.Load(),
+					// send() rewrites the UPDATEs for a 2-octet AS peer: leave room for it
+					Use2ByteAS: fsm.twoByteAsTrans,
 				}
 				for _, msg := range table.CreateUpdateMsgFromPaths(paths, options) {
 					if err := send(msg); err != nil {
